@@ -169,7 +169,7 @@ theorem lorentz_matches_reference (ρ : String → ℝ) (hρ : PosEnv ρ) :
       | none => simp [he, hf, hg] at h1
       | some g =>
         simp only [he, hf, hg, Bool.and_eq_true] at h1
-        exact ⟨e, f, g, rfl, hf, hg, gammaShape_eval hρ f h1.1, velShape_eval hρ g h1.2⟩
+        exact ⟨e, f, g, rfl, hf, hg, gammaShape_eval hρ f h1.1.1, velShape_eval hρ g h1.2⟩
 
 /-- `v → γ → v` returns `v` for `0 < v < c` (the real-analysis core, `lorentz_real_inverse_v`,
     holds for `0 ≤ v`; the link to the regenerated chain needs a positive input) -/
@@ -213,6 +213,34 @@ theorem lorentz_inverse_gamma (ρ : String → ℝ) (hρ : PosEnv ρ) (γ : ℝ)
   rw [ef, eg]
   simp only [withX, if_true]
   exact lorentz_real_inverse_gamma hc hγ.le
+
+/-- the end points: `v = 0 ↦ γ = 1 ↦ v = 0` and `γ = 1 ↦ v = 0 ↦ γ = 1` (together with
+    `lorentz_inverse_v` this is the inverse law on `0 ≤ v < c`, with `lorentz_inverse_gamma` on
+    `1 ≤ γ`) -/
+theorem lorentz_inverse_endpoints (ρ : String → ℝ) (hρ : PosEnv ρ) :
+    ∃ e f g, findEquiv equivalences "lorentz" = some e ∧
+      e.formula Ref.C09.dVelocity Ref.C09.dNone = some f ∧
+      e.formula Ref.C09.dNone Ref.C09.dVelocity = some g ∧
+      f.eval (withX ρ 0) = 1 ∧ g.eval (withX ρ 1) = 0 ∧
+      g.eval (withX ρ (f.eval (withX ρ 0))) = 0 ∧ f.eval (withX ρ (g.eval (withX ρ 1))) = 1 := by
+  have h1 := table_lorentz_shape
+  unfold Ref.C09.lorentzOk at h1
+  cases he : findEquiv equivalences "lorentz" with
+  | none => simp [he] at h1
+  | some e =>
+    cases hf : e.formula Ref.C09.dVelocity Ref.C09.dNone with
+    | none => simp [he, hf] at h1
+    | some f =>
+      cases hg : e.formula Ref.C09.dNone Ref.C09.dVelocity with
+      | none => simp [he, hf, hg] at h1
+      | some g =>
+        simp only [he, hf, hg, Bool.and_eq_true] at h1
+        have f0 : f.eval (withX ρ 0) = 1 :=
+          gammaShape_eval_zero (withX ρ 0) (by simp [withX]) f h1.1.1 h1.1.2
+        have g1 : g.eval (withX ρ 1) = 0 := by
+          rw [velShape_eval (posEnv_withX hρ one_pos) g h1.2]
+          simp [lorentzVel, withX]
+        exact ⟨e, f, g, rfl, hf, hg, f0, g1, by rw [f0, g1], by rw [g1, f0]⟩
 
 /-! ### copy versus in-place -/
 
